@@ -24,6 +24,10 @@ CHECKS = {
          "list of contexts or a helper datasource), every active context and outcome per implementation, evaluated by the real engine; "
          "oracle: latest registered implementation for the active context supplies the spec, overridden and foreign-context implementations never run",
          "deterministic simulation: generated registration histories x active context x outcome plan under seeded engine order; reference model of the resolution rule"),
+ "C07": ("w4", "3.C07", "histories of filter registrations / look-ups / late component definitions against the real registry with a reference "
+         "model consulted after every look-up; then the filters in force applied to generated content through six paths (host file + real grep, "
+         "host command pipeline + real grep, archive post-filter, Cleaner allow-list, filter_content, apply_filters) with the line-level laws checked on each",
+         "deterministic simulation: generated registration/look-up/definition histories against a reference registry model + real grep processes on a scratch tree; line-level filter laws"),
  "C12": ("w1r", "3.C12", "generated rule sets (shared modules/keys/types, every return kind and constructor-argument shape, payloads around "
          "the size limit) under the real SingleEvaluator / InsightsEvaluator / JsonFormat, serial, incremental and on SimPool with seeded "
          "interleavings traced through evaluators.py; counting oracle: each rule in exactly the predicted bucket, entry fields, totals",
@@ -43,6 +47,7 @@ NA = [
   ("C20", "query evaluation is a pure function of (tree, query, options) (DESIGN.md section 5)"),
 ]
 ENGINES = {
+ "w4": ("worlds/w4_filters.py", "W4: filter registry histories on spec sets built through the real metaclass + content laws across the six filter application paths (real grep)"),
  "w5": ("worlds/w5_clientstate.py", "W5: client state directory histories on a scratch tree with seeded uuid/clock/RHSM peer and audit-hook I/O monitor + fault injector"),
  "w1s": ("worlds/w1_specs.py", "W1s: spec-set registration histories through the real SpecSetMeta, evaluated by the real engine"),
  "w1r": ("worlds/w1_rules.py", "W1r: real evaluators/formatters over W1 programs with rich rule return plans; insights.get_pool -> SimPool"),
